@@ -107,9 +107,14 @@ func (a *MockAcceptor) Close() error {
 
 // Inject offers a new inbound connection; it returns the transport once an
 // Accept call took it, or nil if the acceptor was closed first.
-func (a *MockAcceptor) Inject() *RecTransport {
+func (a *MockAcceptor) Inject() *RecTransport { return a.InjectStop(nil) }
+
+// InjectStop is Inject that gives up (returning nil) when stop is closed.
+func (a *MockAcceptor) InjectStop(stop <-chan struct{}) *RecTransport {
 	t := NewRecTransport()
 	select {
+	case <-stop:
+		return nil
 	case a.ch <- t:
 		a.f.mu.Lock()
 		a.f.Transports = append(a.f.Transports, t)
